@@ -525,6 +525,8 @@ class PassWorld(World):
                 return recv[2][0]
             # nothing there: the default of the value type of the map that was asked
             r_ = strip(e["recv"])
+            if r_["k"] == "MethodCall" and r_["method"] in ("min", "max") and not r_["args"]:
+                return 0  # the evaluator orders integers only (Iterator::min / max above)
             while r_["k"] == "MethodCall" and r_["method"] in ("cloned", "copied", "as_ref", "as_deref"):
                 r_ = strip(r_["recv"])
             if r_["k"] == "MethodCall" and r_["method"] in ("get", "remove", "get_mut"):
@@ -923,6 +925,11 @@ class PassWorld(World):
                 if m == "last" and not args:
                     r = it.rest()
                     return S("Some", r[-1]) if r else NONE
+                if m in ("min", "max") and not args:
+                    r = it.rest()
+                    if not all(isinstance(x, int) and not isinstance(x, bool) for x in r):
+                        raise Unsupported("iterator method %s over non-integers" % m)
+                    return S("Some", (min if m == "min" else max)(r)) if r else NONE
                 if m == "nth" and len(args) == 1 and isinstance(args[0], int):
                     r = it.items[it.pos:]
                     it.pos = min(len(it.items), it.pos + args[0] + 1)
